@@ -201,6 +201,17 @@ def ws_pattern(pat):
 
 
 def apply_rewrite(text, a, b, all_occ, what, log, tag):
+    mp = re.match(r'^(.*)#(\d+)$', a, re.S)
+    if mp and not all_occ:
+        # `pattern#k`: rewrite only the k-th occurrence (0-based)
+        a0, pick = mp.group(1), int(mp.group(2))
+        rx = ws_pattern(a0)
+        ms = list(rx.finditer(text))
+        if pick >= len(ms):
+            raise LostAnchor(f'{what}: rewrite[{tag}] occurrence {pick} of {a0!r} not found ({len(ms)} matches)')
+        m = ms[pick]
+        log.append({'rule': tag, 'in': what, 'from': a, 'to': b, 'count': 1})
+        return text[:m.start()] + b + text[m.end():]
     rx = ws_pattern(a)
     ms = list(rx.finditer(text))
     if not ms:
